@@ -480,7 +480,20 @@ def program_contracts(im, findings):
     ops.append(lemma_site(im, r'self\.instructions\.push\(LineInstruction::Copy\);', 13,
                           'if use_special { lemma_wl_default_special(h, sl, kk); } lemma_trk_copy(h, v, prev, s0, sn13, wc, tgt);'))
 
+    # join points: after each conditional push the bookkeeping and the exec state are restated for the merged state
+    # (closed forms: nothing depends on which branch was taken; this keeps the 2^13 paths apart)
+    RESET = ['discriminator: 0', 'basic_block: false', 'prologue_end: false', 'epilogue_begin: false']
+
+    def join(k):
+        row = 'LineRow { ' + ', '.join(RESET[:min(k, 4)]) + ', ..row0 }'
+        return ('proof { assert(self.row == ' + row + '); assert(self.prev_row == prow0 && self.encoding == enc0 && self.line_encoding == le0); '
+                'assert(' + TRK.format(w=f'w{k}') + '); }')
+    JOINS = [(nxt, join(k)) for k, nxt in enumerate([
+        'if self.row.basic_block {', 'if self.row.prologue_end {', 'if self.row.epilogue_begin {',
+        'if self.row.is_statement != self.prev_row.is_statement {', 'if self.row.file != self.prev_row.file {',
+        'if self.row.column != self.prev_row.column {', 'if self.row.isa != self.prev_row.isa {'], start=1)]
     TOP = ('let ghost h = self.lh(); let ghost v = self.encoding.version; let ghost s0 = self.instructions@; '
+           'let ghost row0 = self.row; let ghost prow0 = self.prev_row; let ghost enc0 = self.encoding; let ghost le0 = self.line_encoding; '
            'let ghost prev = self.prev(); let ghost tgt = self.cur(); let ghost lim = tgt.address_offset; '
            'let ghost fits = wl_line_delta_fits(prev.line, tgt.line); '
            'let ghost w1 = WRow { discriminator: tgt.discriminator, ..prev }; let ghost w2 = WRow { basic_block: tgt.basic_block, ..w1 }; '
@@ -498,6 +511,8 @@ def program_contracts(im, findings):
              f'assert(la64 > 0x7fff_ffff_ffff_ffffu64 ==> (la64 as i64) as int == la64 as int - {POW64}) by (bit_vector); '
              'assert(lp64 <= 0x7fff_ffff_ffff_ffffu64 ==> (lp64 as i64) as int == lp64 as int) by (bit_vector); '
              f'assert(lp64 > 0x7fff_ffff_ffff_ffffu64 ==> (lp64 as i64) as int == lp64 as int - {POW64}) by (bit_vector); '
+             'assert(self.row == LineRow { discriminator: 0, basic_block: false, prologue_end: false, epilogue_begin: false, ..row0 }); '
+             'assert(self.prev_row == prow0 && self.encoding == enc0 && self.line_encoding == le0); '
              'assert(' + TRK.format(w='w8') + '); }')
     AFTER_DEFAULT = ('proof { '
                      f'assert(line_base as int == (if h.line_base < 0 {{ h.line_base + {POW64} }} else {{ h.line_base }})); '
@@ -549,7 +564,7 @@ def program_contracts(im, findings):
         # the same for ANY pair of u64 line numbers.  FAILS: a difference outside i64 is computed modulo 2^64 (F-wline-2)
         f'[C13:generate-row-any-line][C12:line-regen] forall|base: int| wl_generates({H}, base, old(self).prev(), old(self).cur(), {PUSHED})',
     ] if findings else []),
-        before=[('self.in_sequence = true;', TOP), ('let line_base = i64::from(', CASTS),
+        before=[('self.in_sequence = true;', TOP), ('let line_base = i64::from(', CASTS)] + JOINS + [
                 ('let op_advance = self.op_advance();', 'proof { lemma_wl_op_advance_cong(h, prev, self.cur(), prev, tgt); }')] + [b for b, _ in ops] + [
             ('if op_advance != 0 {', AFTER_LINE),
             ('let (special_op_advance, const_add_pc) =', NO_OVERFLOW),
